@@ -158,8 +158,8 @@ theorem play_is_the_stable_sort (f : FileIn) (sel : List Int) (pm : PortMap) (ou
     (h : StableSortOf (fun x => x.ev.time) (collect f sel pm) out) : out = play f sel pm :=
   stable_sort_unique _ _ h
 
-example : StableSortOf (fun x => x.ev.time) (collect [[(5, [0x90, 1, 1])], [(5, [0x91, 1, 1]), (2, [0x91, 2, 2])]] [] [(-1, 0)])
-    [⟨⟨1, 1, 2, [0x91, 2, 2]⟩, 0⟩, ⟨⟨0, 0, 5, [0x90, 1, 1]⟩, 0⟩, ⟨⟨1, 0, 5, [0x91, 1, 1]⟩, 0⟩] := by
+example : StableSortOf (fun x => x.ev.time) (collect [[(5, [0x90, 1, 1])], [(2, [0x91, 2, 2]), (5, [0x91, 1, 1])]] [] [(-1, 0)])
+    [⟨⟨1, 0, 2, [0x91, 2, 2]⟩, 0⟩, ⟨⟨0, 0, 5, [0x90, 1, 1]⟩, 0⟩, ⟨⟨1, 1, 5, [0x91, 1, 1]⟩, 0⟩] := by
   constructor
   · decide
   · intro k
@@ -213,7 +213,7 @@ example : FileMono sampleFile := by
 example : ∀ tr ∈ sampleFile, ∀ e ∈ tr, InRange e.1 := by
   intro tr htr
   simp only [sampleFile, List.mem_cons, List.mem_nil_iff, or_false] at htr
-  rcases htr with rfl | rfl <;> (intro e he; simp only [List.mem_cons, List.mem_nil_iff, or_false] at he; unfold InRange; rcases he with rfl | rfl | rfl | rfl | rfl | rfl | rfl | rfl | rfl | rfl | rfl | rfl <;> omega) <;> skip
+  rcases htr with rfl | rfl <;> (intro e he; simp only [List.mem_cons, List.mem_nil_iff, or_false] at he; unfold InRange; rcases he with rfl | rfl | rfl | rfl | rfl | rfl | rfl | rfl | rfl | rfl | rfl | rfl <;> omega)
 
 /-- before the sort: 17 collected events (no meta, no sysex), 14 of them share the time key 100 and the
     concatenation is not sorted (track 0's events at 100 come before track 1's event at 0) -/
